@@ -116,7 +116,9 @@ struct Ex<'tcx> {
 
 impl<'tcx> Ex<'tcx> {
     fn ty(&mut self, t: Ty<'tcx>) -> J {
-        let st = format!("{}", t);
+        let st = rustc_middle::ty::print::with_no_visible_paths!(
+            rustc_middle::ty::print::with_no_trimmed_paths!(format!("{}", t))
+        );
         if let Some(i) = self.type_ix.get(&st) {
             return J::I(*i as i128);
         }
@@ -127,7 +129,11 @@ impl<'tcx> Ex<'tcx> {
     }
 
     fn path(&self, did: DefId) -> String {
-        self.tcx.def_path_str(did)
+        // real definition paths (core::/alloc::), independent of which
+        // re-exports happen to be visible from the crate being analysed
+        rustc_middle::ty::print::with_no_visible_paths!(
+            rustc_middle::ty::print::with_no_trimmed_paths!(self.tcx.def_path_str(did))
+        )
     }
 
     fn span(&self, sp: Span) -> J {
